@@ -151,6 +151,35 @@ decode_text(int len, int code, unsigned char *t)
     t[len] = 0;
 }
 
+/* longer texts over sub-alphabets that concentrate on one mechanism each: quote/escape/tilde, double quote/
+ * escape/reference, braced references */
+static const char *const sub_alpha[3] = { "'\\~a", "\"\\$a", "${}a" };
+static int sub_sel = -1;
+
+static void
+decode_any(int len, int code, unsigned char *t)
+{
+    int i;
+
+    if (sub_sel < 0) {
+        decode_text(len, code, t);
+        return;
+    }
+    for (i = 0; i < len; i++, code /= 4) {
+        t[i] = (unsigned char) sub_alpha[sub_sel][code % 4];
+    }
+    t[len] = 0;
+}
+
+static void h_expand(int len, int code);
+
+static void
+h_expand_sub(int sub, int len, int code)
+{
+    sub_sel = sub;
+    h_expand(len, code);
+}
+
 /* differential check on the text with index `code` among the strings of length `len` */
 static void
 h_expand(int len, int code)
@@ -160,7 +189,7 @@ h_expand(int len, int code)
     spif_charptr_t r;
     int i, wn;
 
-    decode_text(len, code, text);
+    decode_any(len, code, text);
     spifconf_init_subsystem();
     for (i = 0; i <= len; i++) {
         buf[i] = text[i];
